@@ -844,6 +844,7 @@ def run(ctx):
     from rules import c04 as _c04c
 
     _c04c.r04_5_final_sweep(ctx)  # an expression that needs an op the program version lacks is refused, not emitted (shared with C04)
+    _c04c.r04_2_field_tables(ctx)  # the field an accessor names exists, with that type, from the program version at which the accessor is accepted: otherwise the emitted op cannot run at all at an accepted version (shared with C04)
     from rules import c04 as _c04b
 
     _c04b.r04_4_immediates(ctx)  # a constant operand is written as an immediate only where it fits the encoding; otherwise the stack form denotes the same value (shared with C04)
